@@ -67,6 +67,14 @@ func NewVoxelSDF3(s SDF3, meshCells int, progress chan float64) SDF3 {
 
 // Evaluate returns the minimum distance to a VoxelSDF3.
 func (m *VoxelSDF3) Evaluate(p v3.Vec) float64 {
+	// There are no voxel corners outside of the bounding box (they would read as 0).
+	// Use the value at the closest point of the box plus the distance to it.
+	q := p.Clamp(m.bb.Min, m.bb.Max)
+	return m.interpolate(q) + p.Sub(q).Length()
+}
+
+// interpolate returns the trilinear interpolation of the voxel corners at a point within the bounding box.
+func (m *VoxelSDF3) interpolate(p v3.Vec) float64 {
 	// Find the voxel's {0,0,0} corner quickly and compute p's displacement
 	voxelSize := m.bb.Size().Div(conv.V3iToV3(m.numVoxels))
 	voxelStartIndex := conv.V3ToV3i(p.Sub(m.bb.Min).Div(voxelSize))
